@@ -220,6 +220,8 @@ class Evaluator:
                 return ("setmethod", v, e.attr)
             if isinstance(v, Obj) and v.tag == "Class" and v.attrs.get("name") == "object" and e.attr == "__setattr__":
                 return ("setattr",)
+            if v is None or isinstance(v, (bool, int, float)) or (isinstance(v, Obj) and v.attrs.get("__plain__")):
+                raise Raised("AttributeError")  # what Python does for a number or None
             raise Uninterpretable(f"attribute {ast.unparse(e)}")
         if isinstance(e, ast.Subscript):
             v = self.ev(e.value, env)
